@@ -142,12 +142,13 @@ def harness(variant, name):
     return build.ensure_harness(variant, name)
 
 
-def run_driver(exe, scenarios, timeout=600, env=None, threads=1, mpi=0):
+def run_driver(exe, scenarios, timeout=600, env=None, threads=1, mpi=0, scen_timeout=None):
     """Feed ndjson scenarios to a driver on stdin; returns list of parsed ndjson output records."""
     e = dict(os.environ)
     e["OMP_NUM_THREADS"] = str(threads)
     e["ASAN_OPTIONS"] = "detect_leaks=0:abort_on_error=0:halt_on_error=1"
     e["UBSAN_OPTIONS"] = "print_stacktrace=1:halt_on_error=1"
+    e["PV_SCEN_TIMEOUT"] = str(int(scen_timeout) if scen_timeout else min(600, int(timeout)))
     if env:
         e.update({k: str(v) for k, v in env.items()})
     inp = "".join(json.dumps(s, separators=(",", ":")) + "\n" for s in scenarios)
@@ -208,20 +209,20 @@ def sanitizer_summary(err):
     return "SANITIZER %s in %s" % (m.group(1), " <- ".join(frames[:3]) if frames else "?")
 
 
-def run_driver_resilient(exe, scenarios, timeout=600, env=None, threads=1, max_restarts=3000, max_crashes=40):
+def run_driver_resilient(exe, scenarios, timeout=600, env=None, threads=1, max_restarts=3000, max_crashes=40, scen_timeout=None):
     """Runs all scenarios; when the driver dies (crash, sanitizer abort, hang) the scenario it died in is recorded
     and the run continues with the scenarios after it. Returns (records without Done lines, {id: stderr tail})."""
     recs, crashed = [], {}
     todo = list(scenarios)
     restarts = 0
     while todo and restarts <= max_restarts:
-        out, rc, err = run_driver(exe, todo, timeout=timeout, env=env, threads=threads)
+        out, rc, err = run_driver(exe, todo, timeout=timeout, env=env, threads=threads, scen_timeout=scen_timeout)
         done = [r["id"] for r in out if r.get("e") == "Done"]
         recs.extend(r for r in out if r.get("e") != "Done")
         if len(done) >= len(todo):
             break
         bad = todo[len(done)]
-        crashed[bad.get("id")] = "rc=%s %s" % (rc, sanitizer_summary(err) or err[-1500:])
+        crashed[bad.get("id")] = "rc=%s %s%s" % (rc, "(killed by the watchdog: no progress) " if rc in (-14, 142) else "", sanitizer_summary(err) or err[-1500:])
         todo = todo[len(done) + 1:]
         restarts += 1
         if len(crashed) >= max_crashes:
@@ -360,7 +361,9 @@ def validate_trace(module, cfg, lines, tag, depth_first=False, timeout=900, heap
     """lines: list of dicts (one trace event each). Returns TraceVerdict.
     The trace spec must define POSTCONDITION TraceAccepted printing <<"@@REJECT", matched, total>> on failure."""
     os.makedirs(OUT, exist_ok=True)
-    path = os.path.join(OUT, tag + ".ndjson")
+    # one file per process: the same check may be running against another tree at the same time
+    path = os.path.join(OUT, "%s.%d.ndjson" % (tag, os.getpid()))
+    os.makedirs(os.path.dirname(path), exist_ok=True)
     with open(path, "w") as f:
         for ln in lines:
             f.write(json.dumps(ln, separators=(",", ":")) + "\n")
@@ -381,4 +384,9 @@ def validate_trace(module, cfg, lines, tag, depth_first=False, timeout=900, heap
     elif r.ok:
         v.accepted = True
         v.matched = len(lines)
+    if not os.environ.get("VERIF_KEEP_TRACES"):
+        try:
+            os.remove(path)
+        except OSError:
+            pass
     return v
